@@ -24,3 +24,72 @@ package template
 //@   assert-at store system #3 : prompt == "" && response == ""
 // a user message follows the system message of its triple: no response may be pending
 //@   assert-at store prompt #1 : response == ""
+// collate is given the whole message list of the request
+//@   assert-at call collate #1 : len(arg0) == len(v.Messages) && (len(arg0) > 0 ==> &arg0[0] == &v.Messages[0])
+// definitional (see collate): names for the system count, the collation index and the merged text of
+// THIS message list; every list has such an interpretation - listed in the assumptions
+//@   assume-at call collate #1 : tplnsys(0) == 0 && tplgrp(0) == 0 && (len(arg0) > 0 ==> tplcat(0) == arg0[0].Content)
+//@   assume-at call collate #1 : forall j int :: 0 <= j && j < len(arg0) ==> tplnsys(j+1) == tplnsys(j) + ite(arg0[j].Role == "system", 1, 0)
+//@   assume-at call collate #1 : forall j int :: 0 <= j && j + 1 < len(arg0) ==> tplgrp(j+1) == tplgrp(j) + ite(arg0[j+1].Role == arg0[j].Role, 0, 1)
+//@   assume-at call collate #1 : forall j int :: 0 <= j && j + 1 < len(arg0) ==> tplcat(j+1) == ite(arg0[j+1].Role == arg0[j].Role, tplcat(j) + ("\n\n" + arg0[j+1].Content), arg0[j+1].Content)
+// each message text goes unchanged into the field of its role
+//@   assert-at store system #3 : stored == m.Content
+//@   assert-at store prompt #1 : stored == m.Content
+//@   assert-at store response #1 : stored == m.Content
+// NO SYSTEM MESSAGE IS OVERWRITTEN: when a system message is put into the pending triple, no earlier
+// system message is still pending there. FAILS ON THE UNCHANGED TREE (genuine defect, reproduced with a
+// Go test): the flush above runs only when prompt or response is non-empty, so for
+// [system A, tool T, system B, user U] or [system A, user "", system B, user U] and a legacy
+// (.System/.Prompt/.Response) template the prompt contains B but not A.
+//@   assert-at store system #3 : system == ""
+
+// ---- C19: message collation and system extraction (collate) ----
+// Ghost names, introduced by definitional preconditions (for every message list there is an
+// interpretation that satisfies the recurrences, so they restrict nothing; the engine has no
+// recursive spec functions over slices of structs):
+//   tplnsys(j) = number of system messages among msgs[0:j]
+//   tplgrp(j)  = index of the collated message that msgs[j] goes into (number of role changes in msgs[0:j+1])
+//   tplcat(j)  = merged content of the run of same-role messages that ends at msgs[j]
+//@ spec func tplnsys(j int) int
+//@ spec func tplgrp(j int) int
+//@ spec func tplcat(j int) string
+
+// Every message goes into the collated list: a message that continues a run of one role is appended to
+// the last collated message (separator "\n\n", nothing of the earlier text lost), any other message
+// opens a new collated message; roles and order are kept, so in particular the LATEST message is the
+// tail of the last collated message. The content of every system message is collected, in order, and
+// joined into the system string. The caller's messages are not written (a copy is merged into).
+//@ func collate
+//@   requires tplnsys(0) == 0
+//@   requires forall j int :: 0 <= j && j < len(msgs) ==> tplnsys(j+1) == tplnsys(j) + ite(msgs[j].Role == "system", 1, 0)
+//@   requires tplgrp(0) == 0
+//@   requires forall j int :: 0 <= j && j + 1 < len(msgs) ==> tplgrp(j+1) == tplgrp(j) + ite(msgs[j+1].Role == msgs[j].Role, 0, 1)
+//@   requires len(msgs) > 0 ==> tplcat(0) == msgs[0].Content
+//@   requires forall j int :: 0 <= j && j + 1 < len(msgs) ==> tplcat(j+1) == ite(msgs[j+1].Role == msgs[j].Role, tplcat(j) + ("\n\n" + msgs[j+1].Content), msgs[j+1].Content)
+//@   modifies nothing
+//@   ensures len(msgs) == 0 ==> len(result.1) == 0
+//@   ensures len(msgs) > 0 ==> len(result.1) == tplgrp(len(msgs) - 1) + 1
+//@   ensures forall q int :: 0 <= q && q < len(msgs) ==> 0 <= tplgrp(q) && tplgrp(q) < len(result.1) && result.1[tplgrp(q)].Role == msgs[q].Role
+//@   ensures forall q int :: 0 <= q && q < len(msgs) && (q == len(msgs) - 1 || msgs[q+1].Role != msgs[q].Role) ==> result.1[tplgrp(q)].Content == tplcat(q)
+//@   loop 1 invariant forall q int :: 0 <= q && q < len(msgs) ==> msgs[q].Role == old(msgs[q].Role) && msgs[q].Content == old(msgs[q].Content)
+//@   loop 1 invariant len(system) == tplnsys(rangeindex + 1)
+//@   loop 1 invariant forall q int :: 0 <= q && q <= rangeindex && msgs[q].Role == "system" ==> 0 <= tplnsys(q) && tplnsys(q) < len(system) && system[tplnsys(q)] == msgs[q].Content
+//@   loop 1 invariant rangeindex == -1 ==> len(collated) == 0
+//@   loop 1 invariant rangeindex >= 0 ==> len(collated) == tplgrp(rangeindex) + 1
+//@   loop 1 invariant forall q int :: 0 <= q && q <= rangeindex ==> 0 <= tplgrp(q) && tplgrp(q) < len(collated) && collated[tplgrp(q)].Role == msgs[q].Role
+//@   loop 1 invariant forall q int :: 0 <= q && q <= rangeindex && (q == rangeindex || msgs[q+1].Role != msgs[q].Role) ==> collated[tplgrp(q)].Content == tplcat(q)
+//@   loop 1 invariant (cap(system) == 0 || fresh(system)) && (cap(collated) == 0 || fresh(collated))
+//@   loop 1 invariant forall k int :: 0 <= k && k < len(collated) ==> fresh(collated[k])
+//@   loop 1 invariant forall k int, l int :: 0 <= k && k < l && l < len(collated) ==> collated[k] != collated[l]
+//   (the last collated message, stated without the ghost index: instantiation hints)
+//@   loop 1 invariant rangeindex >= 0 ==> len(collated) >= 1 && collated[len(collated) - 1].Role == msgs[rangeindex].Role && collated[len(collated) - 1].Content == tplcat(rangeindex)
+//@   loop 1 invariant forall q int :: 0 <= q && q <= rangeindex ==> tplgrp(q) <= tplgrp(rangeindex)
+// Go semantics of allocation: the variable msg allocated by this iteration is distinct from every
+// pointer created by earlier iterations (the engine bounds loaded pointers by the allocation counter at
+// the time of the LOAD, which here comes after the allocation) - listed in the assumptions
+//@   assume-at store msg #1 : forall k int :: 0 <= k && k < len(collated) ==> blk(collated[k]) != blk(&msg)
+//@   assert-at call Join #1 : arg1 == "\n\n" && len(arg0) == tplnsys(len(msgs)) && forall q int :: 0 <= q && q < len(msgs) && msgs[q].Role == "system" ==> arg0[tplnsys(q)] == msgs[q].Content
+//@   assert-at return #1 : result.0 == sjoin(system, "\n\n")
+//   consecutive collated messages have different roles (a run of one role is ONE collated message)
+//@   loop 1 invariant forall g int :: 0 <= g && g + 1 < len(collated) ==> collated[g].Role != collated[g+1].Role
+//@   ensures forall g int :: 0 <= g && g + 1 < len(result.1) ==> result.1[g].Role != result.1[g+1].Role
